@@ -6,7 +6,7 @@ import re
 
 from vlib import metagram
 from vlib.core import REPO, AnalysisError, Report
-from vlib.match import X, atoms, concat_parts, nodes
+from vlib.match import X, atoms, concat_parts, deref, inline_predicates, nodes
 from vlib.srcindex import const_str
 from vlib.srcindex import SourceIndex, attr_chain
 
@@ -72,12 +72,22 @@ def rule_codec(rep: Report, idx) -> None:
 	for c_ in nodes(mx, ast.Call):
 		if not (isinstance(c_.func, ast.Name) and c_.func.id == 'cls' and c_.args):
 			continue
-		known = atoms(mx, c_)
+		known = inline_predicates(make, atoms(mx, c_))
 		starts = {const_str(a.args[0]) for a, p_ in known if p_ and isinstance(a, ast.Call) and isinstance(a.func, ast.Attribute) and a.func.attr == 'startswith' and a.args}
 		ends = {const_str(a.args[0]) for a, p_ in known if p_ and isinstance(a, ast.Call) and isinstance(a.func, ast.Attribute) and a.func.attr == 'endswith' and a.args}
 		for d in starts & ends:
 			if d:
 				reader[d] = sorted(set(reader.get(d, [])) | {unparse(c_.args[-1])})
+				# the reader must remove exactly one delimiter character per side (what the printer adds), not every edge occurrence
+				body = deref(mx, c_.args[0])
+				bsrc = unparse(body)
+				strips = [x for x in ast.walk(body) if isinstance(x, ast.Call) and isinstance(x.func, ast.Attribute) and x.func.attr in ('strip', 'lstrip', 'rstrip', 'replace')]
+				if strips:
+					r.violate(f'reader-strips-one:{d}', (m.relpath, c_.lineno), f'Pattern.make takes the text of a {d}...{d} terminal as `{bsrc}`: strip()/replace() remove every edge (or inner) occurrence of the delimiter, so a terminal whose text itself ends or begins with `{d}` (e.g. the regexp /:|\\//) comes back shorter than it was printed and from_ast(parse(pretty(g))) != g', bsrc)
+				elif isinstance(body, ast.Subscript) and isinstance(body.slice, ast.Slice) and unparse(body.slice) == '1:-1':
+					r.ok(f'reader-strips-one:{d}', (m.relpath, c_.lineno))
+				elif isinstance(body, ast.Call) or isinstance(body, ast.Name):
+					r.skip(f'reader-strips-one:{d}', (m.relpath, c_.lineno), f'delimiter removal `{bsrc}` not recognised')
 	# is the reader's un-escaping restricted to exact two-character terminals?
 	restricted = any(isinstance(n, ast.Compare) and isinstance(n.left, ast.Call) and unparse(n.left.func) == 'len' and isinstance(n.ops[0], ast.Eq) and unparse(n.comparators[0]) == '2' for n in nodes(mx, ast.Compare))
 	unescapes = any(isinstance(n, ast.Attribute) and n.attr.endswith('__space_codes') for n in nodes(mx))
